@@ -106,10 +106,12 @@ def walk_dest(tr: Trace, on_step=None):
                     if st.ob["exc"] in (0, 202, 201) or True:
                         if pdu["kind"] == codec.K_MD:
                             it.new_transaction()
+                            it.tid = (pdu["src"], pdu["seq"])
                             it.on_metadata(pdu)
                             info["accepted_md"] = True
                         elif pdu["kind"] in (codec.K_FD, codec.K_EOF):
                             it.new_transaction()
+                            it.tid = (pdu["src"], pdu["seq"])
                             if pdu["kind"] == codec.K_FD:
                                 it.extent = max(it.extent, pdu["offset"] + len(pdu["data"]))
                             else:
@@ -131,6 +133,10 @@ def walk_dest(tr: Trace, on_step=None):
                         info["accepted_md"] = True
                     elif pdu["kind"] == codec.K_EOF and sa in (2, 3, 4) and it.eof_size is None and pdu["cond"] == 0:
                         it.eof_size = pdu["fsize"]
+            if st.tag == 3:
+                # a cancel request stops the writing of the running transaction only if it names that transaction
+                info["foreign_cancel_accepted"] = (not was_idle and st.ob["exc"] == 0 and st.ob["ret"] == 1
+                                                   and getattr(it, "tid", None) is not None and (st.op[1], st.op[2]) != it.tid)
             # deletion of the destination file is visible through the Transaction-Finished indication
             for e in st.ob["events"]:
                 if e[0] == 3 and e[5] == 0 and it.name is not None and isinstance(it.tree.get(it.name), bytes):
@@ -149,6 +155,9 @@ def oracle_c05(tr: Trace):
         return          # deletions are observed through the Transaction-Finished indication
 
     def check(st, it, info):
+        if info.get("foreign_cancel_accepted"):
+            raise Failure(f"C05 a cancel request naming transaction {(st.op[1], st.op[2])} stopped the running transaction "
+                          f"{it.tid}: the File Data PDUs that follow are accepted but can no longer be stored (op {st.i})")
         if st.tag == 10:
             comps, _ = codec.take_path(st.op, 1)
             p = tuple(comps)
